@@ -174,6 +174,34 @@ def helpers_case(ctx: Ctx, stream: str, i: int) -> None:
     sel = {'I': 0, 'Q': 1, 'U': 2, 'V': 3}
     if any(float(np.asarray(getattr(v, k.lower())).ravel()[0]) != sel[k] + 1 for k in kind):
         ctx.fail(stream, i, 'from_iquv', 'from_iquv does not select the components of the kind', {})
+    # "with dtype promotion across components": mixed-dtype inputs come out in the promoted dtype of the KEPT
+    # components (table of jnp.result_type, the one the model's promotion theorems are about), values unchanged
+    pool = [jnp.float16, jnp.float32] + ([jnp.float64] if jax.config.jax_enable_x64 else [jnp.bfloat16])
+    dts = [rng.choice(pool) for _ in range(4)]
+    if len(set(dts)) == 1:
+        dts[rng.randrange(4)] = rng.choice([d for d in pool if d != dts[0]])
+    mixed = [jnp.full(shape, float(c + 1), dtype=dts[c]) for c in range(4)]
+    kept = [sel[k] for k in kind]
+    want_dt = jnp.result_type(*[dts[c] for c in kept])
+    for label, mk in (('from_iquv', lambda: cls.from_iquv(*mixed)),
+                      ('from_stokes', lambda: StokesPyTree.from_stokes(*[mixed[c] for c in kept])),
+                      ('from_stokes-keywords', lambda: StokesPyTree.from_stokes(**{k: mixed[sel[k]] for k in reversed(kind)}))):
+        st, t = safe(mk)
+        cfgp = {'kind': kind, 'dtypes': [str(np.dtype(d)) if d != jnp.bfloat16 else 'bfloat16' for d in dts],
+                'expected': str(want_dt)}
+        if st != 'ok':
+            ctx.fail(stream, i, f'{label}-mixed-raises:{st}', str(t)[:150], cfgp)
+            continue
+        got = [(str(getattr(t, k.lower()).dtype), float(np.asarray(getattr(t, k.lower()), dtype=np.float64).ravel()[0]))
+               for k in kind]
+        if any(d != str(want_dt) for d, _ in got):
+            ctx.fail(stream, i, f'{label}-promotion', f'{label} of mixed-dtype components gives dtypes {[d for d, _ in got]}, '
+                     f'the promoted dtype of the kept components is {want_dt}', cfgp)
+        elif any(v != sel[k] + 1 for (_, v), k in zip(got, kind)):
+            ctx.fail(stream, i, f'{label}-mixed-values', f'{label} changed the values while promoting', cfgp)
+        elif type(t) is not cls:
+            ctx.fail(stream, i, f'{label}-mixed-class', f'{label} returned {type(t).__name__}', cfgp)
+    ctx.count('promotion:' + str(want_dt))
     # factories and *_like
     for label, mk, val in (('zeros', lambda: cls.zeros(shape, jnp.float32), 0.0), ('ones', lambda: cls.ones(shape, jnp.float32), 1.0),
                            ('full', lambda: cls.full(shape, 3.0, jnp.float32), 3.0)):
